@@ -76,7 +76,7 @@ pub fn special(rng: &mut Rng, range: usize) -> u32 {
 /// Applies one random corruption; returns its class name.
 pub fn corrupt(rng: &mut Rng, b: &mut Vec<u8>) -> &'static str {
     let l = layout(b);
-    match rng.below(16) {
+    match rng.below(17) {
         0 => {
             // header scalar fields
             let (off, wide) = *rng.pick(&[(24usize, false), (26, false), (28, false), (30, false), (32, false), (40, true), (44, true), (48, true), (52, true), (56, true), (60, true), (64, true), (68, true), (72, true)]);
@@ -182,6 +182,27 @@ pub fn corrupt(rng: &mut Rng, b: &mut Vec<u8>) -> &'static str {
             let fill = *rng.pick(&[0u8, 0xff, 0xfe]);
             b.extend(std::iter::repeat(fill).take(extra));
             "extend"
+        }
+        15 => {
+            // a crafted DIFAT chain: 2-4 sectors appended to the file, every entry FREE, successor
+            // pointers forming a straight chain, a self-loop, a loop back to the first or to a later
+            // sector (rho shapes); the header's first-DIFAT-sector field points at the first, the count
+            // is right, too small or too large
+            let k = 2 + rng.below(3) as usize;
+            let pad = (l.s - b.len() % l.s) % l.s;
+            b.extend(std::iter::repeat(0u8).take(pad));
+            let first = b.len() / l.s - 1;
+            let ids: Vec<usize> = (0..k).map(|i| first + i).collect();
+            let back = match rng.below(5) { 0 => None, 1 => Some(k - 1), 2 => Some(0), _ => Some(rng.below(k as u64) as usize) };
+            for i in 0..k {
+                let mut sec = vec![0xffu8; l.s];
+                let next: u32 = if i + 1 < k { ids[i + 1] as u32 } else { match back { None => 0xffff_fffe, Some(j) => ids[j] as u32 } };
+                sec[l.s - 4..].copy_from_slice(&next.to_le_bytes());
+                b.extend(sec);
+            }
+            wr32(b, 68, first as u32);
+            wr32(b, 72, match rng.below(4) { 0 => 0, 1 => k as u32 + 1, _ => k as u32 });
+            "difat-chain-crafted"
         }
         _ => {
             // random bytes somewhere behind the header
